@@ -136,8 +136,37 @@ fn play(n: usize) -> GameState {
     s
 }
 
+/// A start-of-turn hash that is different for every i (i < 2^22): the hash of the start board plus a "counter" written in
+/// binary with gold rabbits / cats on ranks 3-6 (22 of the squares that are empty in the start board) - built with the public API.
+fn distinct_value(pb: &PieceBoard, side: bool, i: usize) -> Zobrist {
+    let p = pb.piece_board();
+    let mut rabbits = p.rabbits;
+    let mut p1 = p.p1_pieces;
+    let mut bit = 0;
+    for sq in 16..48u32 {
+        // skip the trap squares c6 (18) and f6 (21): a lone piece there would not be a legal position (irrelevant for a
+        // hash value, but kept tidy)
+        if sq == 18 || sq == 21 || sq == 42 || sq == 45 || (p.all_pieces >> sq) & 1 == 1 {
+            continue;
+        }
+        if bit < 22 && (i >> bit) & 1 == 1 {
+            rabbits |= 1u64 << sq;
+            p1 |= 1u64 << sq;
+        }
+        bit += 1;
+    }
+    let b = PieceBoard::new(p1, p.elephants, p.camels, p.horses, p.dogs, p.cats, rabbits);
+    Zobrist::from_piece_board(b.piece_board(), side, 0)
+}
+
 /// A history of n nodes built through the public constructors only (labelled synthetic: not a played game).
 fn synthetic(n: usize) -> GameState {
+    synthetic_with_period(n, usize::MAX)
+}
+
+/// `period`: history value i is derived from i % period: with period = n / 2 every recorded position occurs exactly
+/// twice (legal: only a third occurrence is forbidden) - a long game that went round a long cycle twice.
+fn synthetic_with_period(n: usize, period: usize) -> GameState {
     let base = start_state();
     let pb = PieceBoard::new(
         base.piece_board().p1_pieces,
@@ -150,10 +179,11 @@ fn synthetic(n: usize) -> GameState {
     );
     let hash = Zobrist::from_piece_board(pb.piece_board(), true, 0);
     let mut hist = List::new();
-    for i in 0..n {
-        // distinct values so nothing counts as a repetition
+    for i0 in 0..n {
+        // distinct values (within one period) so nothing counts as a third repetition
+        let i = i0 % period.max(1);
         let side = i % 2 == 0;
-        let z = Zobrist::from_piece_board(pb.piece_board(), side, i % 4).pass((i / 2) % 4);
+        let z = distinct_value(&pb, side, i);
         hist = hist.append(z);
     }
     hist = hist.append(hash);
@@ -175,7 +205,7 @@ fn queries(s: &GameState) -> usize {
 }
 
 fn body(mode: &str, n: usize, shape: &str, stack: usize) {
-    let s = if mode == "play" { play(n) } else { synthetic(n) };
+    let s = if mode == "play" { play(n) } else if mode == "synthetic2" { synthetic_with_period(n, (n / 2).max(1)) } else { synthetic(n) };
     let c = s.clone();
     let mut acc = queries(&s) + queries(&c);
     drop(c);
@@ -274,7 +304,7 @@ fn body(mode: &str, n: usize, shape: &str, stack: usize) {
             drop(mid);
             let mut cur = Some(s);
             for round in 0..40usize {
-                let s0 = cur.take().unwrap_or_else(|| if mode == "play" { play(n.min(2000)) } else { synthetic(n) });
+                let s0 = cur.take().unwrap_or_else(|| if mode == "play" { play(n.min(2000)) } else if mode == "synthetic2" { synthetic_with_period(n, (n / 2).max(1)) } else { synthetic(n) });
                 let owners = 2 + round % 2;
                 let barrier = std::sync::Arc::new(std::sync::Barrier::new(owners));
                 let mut hs = vec![];
@@ -296,7 +326,7 @@ fn body(mode: &str, n: usize, shape: &str, stack: usize) {
             // the same game replayed / restored a second time, independently allocated: comparing the two states, hashing
             // them and looking them up in hash-keyed collections are queries too (a transposition table does exactly this)
             drop(mid);
-            let t = if mode == "play" { play(n) } else { synthetic(n) };
+            let t = if mode == "play" { play(n) } else if mode == "synthetic2" { synthetic_with_period(n, (n / 2).max(1)) } else { synthetic(n) };
             acc += (s == t) as usize + (t == s) as usize + (s != t) as usize;
             let c = s.clone();
             acc += (c == s) as usize;
